@@ -326,6 +326,16 @@ def run_asyncio(case):
             left = [t for t in asyncio.all_tasks(loop) if t not in base_tasks and t is not asyncio.current_task()]
             obs.tasks_left = len([t for t in left if not t.done()])
             obs.tasks_left_names = [repr(t.get_coro())[:120] for t in left if not t.done()][:8]
+            obs.tasks_left_where = []
+            for t in [x for x in left if not x.done()][:6]:
+                coro = t.get_coro()
+                chain = []
+                while coro is not None and len(chain) < 12:
+                    fr = getattr(coro, "cr_frame", None) or getattr(coro, "gi_frame", None)
+                    if fr is not None:
+                        chain.append("%s:%d" % (fr.f_code.co_name, fr.f_lineno))
+                    coro = getattr(coro, "cr_await", None) or getattr(coro, "gi_yieldfrom", None)
+                obs.tasks_left_where.append(" > ".join(chain))
             if task.done():
                 if task.cancelled():
                     obs.handler = "cancelled"
